@@ -17,6 +17,8 @@ type SchedConfig struct {
 	Bound    int                     // maximal deviation cost (preemptions + costed environment deviations)
 	Deadline time.Time
 	MaxSteps int
+	// SwitchCost: see rt.Options.
+	SwitchCost int
 }
 
 // SchedResult is what an exploration covered.
@@ -43,7 +45,7 @@ func DFS(cfg SchedConfig) SchedResult {
 		if !cfg.Deadline.IsZero() && time.Now().After(cfg.Deadline) {
 			return false
 		}
-		x := rt.Run(rt.Options{Prefix: prefix, MaxSteps: cfg.MaxSteps}, cfg.Body)
+		x := rt.Run(rt.Options{Prefix: prefix, MaxSteps: cfg.MaxSteps, SwitchCost: cfg.SwitchCost}, cfg.Body)
 		if x.Aborted != "" {
 			res.EngineError = x.Aborted + fmt.Sprintf(" (prefix %v)", prefix)
 			return false
